@@ -1,18 +1,24 @@
 /-
   Soundness of the structural linearity checker `Scico.Jaxpr.check`  (DESIGN §5.6, property C06).
 
-  Setting: scalars `R → K` (`ℝ → ℂ` for complex operators, `ℝ → ℝ` for real ones), values in any
-  `K`-module `V` (which is then also an `R`-module, `IsScalarTower R K V`).  An interpretation `I` of the
-  primitives is *sound* (`Interp.Sound`) when every primitive has the algebraic property its class
-  promises – this is the trusted per-primitive table, stated as explicit hypotheses.
+  Setting: scalars `R → K` (`ℝ → ℂ` for complex operators, `ℝ → ℝ` for real ones; `K` carries a
+  conjugation `star` that fixes the image of `R`), values in any `K`-module `V` (which is then also an
+  `R`-module, `IsScalarTower R K V`).  An interpretation `I` of the primitives is *sound*
+  (`Interp.Sound`) when every primitive has the algebraic property its class promises – this is the
+  trusted per-primitive table, stated as explicit hypotheses.
 
-  Main result (`run_holds`): for every program, the denotation `run I p` satisfies the property named by
-  `check p` – constant / `K`-linear / `R`-linear – by induction over the equation list (any length).
+  Main result (`progTags_holds`, `run_linC`, `run_linR`, `run_antiC'`, `run_const`): for every program
+  the denotation `run I p` has the property named by `check p` – constant / `K`-linear /
+  conjugate-linear / `R`-linear – by induction over the equation list (any length).
+
+  All three kinds of linearity are instances of one notion, `SemiLin σ v`:
+  `v` is additive and `v (s • x) = σ s • v x`, with `σ = id`, `star`, `algebraMap R K`.
 -/
 import Scico.Model.Jaxpr
 import Mathlib.Algebra.Module.LinearMap.Defs
 import Mathlib.Algebra.Module.Pi
 import Mathlib.Algebra.Algebra.Basic
+import Mathlib.Algebra.Star.Basic
 import Mathlib.Tactic.DefEqTransformations
 
 set_option linter.unusedSectionVars false
@@ -26,12 +32,14 @@ def ladd {V : Type} [Add V] (xs ys : List V) : List V := List.zipWith (· + ·) 
 def lsmul {S V : Type} [SMul S V] (c : S) (xs : List V) : List V := xs.map (c • ·)
 
 section
-variable (R K : Type) {V : Type} [CommSemiring R] [CommSemiring K] [Algebra R K]
+variable (R K : Type) {V : Type} [CommSemiring R] [CommSemiring K] [StarRing K] [Algebra R K]
   [AddCommMonoid V] [Module R V] [Module K V] [IsScalarTower R K V]
 
 /-- The per-class facts about the primitives (the trusted table, as hypotheses).
     `ps` are the values of the parameter operands, which are held fixed. -/
 structure Interp.Sound (I : Interp V) : Prop where
+  /-- the conjugation of `K` fixes the scalars coming from `R` (real numbers inside ℂ) -/
+  star_real : ∀ r : R, star (algebraMap R K r) = algebraMap R K r
   /-- a literal flagged zero denotes zero -/
   lit_zero : ∀ p ps, I.den (.lit true) p ps [] = 0
   /-- `linAll` primitives are jointly additive in their data operands -/
@@ -49,79 +57,130 @@ structure Interp.Sound (I : Interp V) : Prop where
   div_add : ∀ p ps u u' d,
     I.den .divLike p ps [u + u', d] = I.den .divLike p ps [u, d] + I.den .divLike p ps [u', d]
   div_smul : ∀ p ps (c : K) u d, I.den .divLike p ps [c • u, d] = c • I.den .divLike p ps [u, d]
-  /-- `real`/`imag`/`conj` are additive and homogeneous for scalars of the sub-field only -/
+  /-- `real`/`imag` are additive and homogeneous for scalars of the sub-field only -/
   re_add : ∀ p ps u u', I.den .realPart p ps [u + u'] = I.den .realPart p ps [u] + I.den .realPart p ps [u']
   re_smul : ∀ p ps (r : R) u, I.den .realPart p ps [r • u] = r • I.den .realPart p ps [u]
+  /-- `conj` is additive and conjugate-homogeneous -/
+  conj_add : ∀ p ps u u', I.den .conj p ps [u + u'] = I.den .conj p ps [u] + I.den .conj p ps [u']
+  conj_smul : ∀ p ps (c : K) u, I.den .conj p ps [c • u] = star c • I.den .conj p ps [u]
 
+end
+
+section
+variable {K V X : Type} [CommSemiring K] [AddCommMonoid V] [Module K V] [AddCommMonoid X]
+
+/-- `v` is additive and `σ`-semilinear: `v (s • x) = σ s • v x` -/
+def SemiLin {S : Type} [SMul S X] (σ : S → K) (v : X → V) : Prop :=
+  (∀ x y, v (x + y) = v x + v y) ∧ ∀ (s : S) (x : X), v (s • x) = σ s • v x
+
+theorem SemiLin.of_zero {S : Type} [SMul S X] (σ : S → K) {v : X → V} (h : ∀ x, v x = 0) : SemiLin σ v :=
+  ⟨fun x y => by simp [h], fun s x => by simp [h]⟩
+
+theorem SemiLin.congr {S : Type} [SMul S X] {σ τ : S → K} {v : X → V} (h : SemiLin σ v)
+    (hστ : ∀ s, σ s = τ s) : SemiLin τ v :=
+  ⟨h.1, fun s x => by rw [h.2, hστ]⟩
+
+end
+
+section
+variable (R K : Type) {V : Type} [CommSemiring R] [CommSemiring K] [StarRing K] [Algebra R K]
+  [AddCommMonoid V] [Module R V] [Module K V]
 variable {X : Type} [AddCommMonoid X] [Module R X] [Module K X]
 
 /-- what a tag claims about a variable, seen as a function of the program input -/
 def Holds : Tag → (X → V) → Prop
   | .const z, v => (∀ x, v x = v 0) ∧ (z = true → ∀ x, v x = 0)
-  | .linC, v => IsLinearMap K v
-  | .linR, v => IsLinearMap R v
+  | .linC, v => SemiLin (fun c : K => c) v
+  | .antiC, v => SemiLin (fun c : K => star c) v
+  | .linR, v => SemiLin (fun r : R => algebraMap R K r) v
   | .bad, _ => True
 
 end
 
 section
-variable {R K : Type} {V : Type} [CommSemiring R] [CommSemiring K] [Algebra R K]
+variable {R K : Type} {V : Type} [CommSemiring R] [CommSemiring K] [StarRing K] [Algebra R K]
   [AddCommMonoid V] [Module R V] [Module K V] [IsScalarTower R K V]
 variable {X : Type} [AddCommMonoid X] [Module R X] [Module K X] [IsScalarTower R K X]
 
-/-! ### small facts -/
+/-! ### conversions between `SemiLin` and Mathlib's `IsLinearMap` -/
 
-omit [Module R V] [IsScalarTower R K V] [Module R X] [IsScalarTower R K X] [Algebra R K] [CommSemiring R] in
-theorem isLinearMap_of_zero {v : X → V} (h : ∀ x, v x = 0) : IsLinearMap K v :=
-  ⟨fun x y => by simp [h], fun c x => by simp [h]⟩
+theorem SemiLin.isLinearMap {v : X → V} (h : SemiLin (fun c : K => c) v) : IsLinearMap K v := ⟨h.1, h.2⟩
 
-theorem isLinearMap_restrict {v : X → V} (h : IsLinearMap K v) : IsLinearMap R v :=
-  ⟨h.map_add, fun r x => by
-    rw [← algebraMap_smul K r x, h.map_smul, algebraMap_smul]⟩
+theorem SemiLin.isLinearMap_real {v : X → V} (h : SemiLin (fun r : R => algebraMap R K r) v) :
+    IsLinearMap R v :=
+  ⟨h.1, fun r x => by rw [h.2, algebraMap_smul]⟩
 
-omit [Module R V] [IsScalarTower R K V] [Module R X] [IsScalarTower R K X] [Algebra R K] [CommSemiring R] in
+/-- `K`-linear ⇒ `R`-linear -/
+theorem SemiLin.restrict {v : X → V} (h : SemiLin (fun c : K => c) v) :
+    SemiLin (fun r : R => algebraMap R K r) v :=
+  ⟨h.1, fun r x => by rw [← algebraMap_smul K r x, h.2]⟩
+
+/-- conjugate-linear ⇒ `R`-linear (the conjugation fixes `R`) -/
+theorem SemiLin.restrict_anti (hs : ∀ r : R, star (algebraMap R K r) = algebraMap R K r) {v : X → V}
+    (h : SemiLin (fun c : K => star c) v) : SemiLin (fun r : R => algebraMap R K r) v :=
+  ⟨h.1, fun r x => by rw [← algebraMap_smul K r x, h.2]; beta_reduce; rw [hs]⟩
+
 theorem isLinearMap_zero_at {S : Type} [Semiring S] [Module S V] [Module S X] {v : X → V}
     (h : IsLinearMap S v) : v 0 = 0 := by
   have := h.map_smul 0 0
   simpa using this
 
-/-- tags that guarantee `K`-linearity -/
+/-! ### which tags guarantee which kind of linearity -/
+
 def Tag.isLinC : Tag → Prop
   | .linC => True
   | .const true => True
   | _ => False
 
-/-- tags that guarantee `R`-linearity -/
+def Tag.isAntiC : Tag → Prop
+  | .antiC => True
+  | .const true => True
+  | _ => False
+
 def Tag.isLinR : Tag → Prop
   | .linC => True
+  | .antiC => True
   | .linR => True
   | .const true => True
   | _ => False
 
-theorem Holds.linC_of {t : Tag} {v : X → V} (ht : t.isLinC) (h : Holds R K t v) : IsLinearMap K v := by
-  rcases t with ⟨_ | _⟩ | _ | _ | _ <;> simp [Tag.isLinC] at ht
-  · exact isLinearMap_of_zero (h.2 rfl)
+theorem Holds.linC_of {t : Tag} {v : X → V} (ht : t.isLinC) (h : Holds R K t v) :
+    SemiLin (fun c : K => c) v := by
+  rcases t with ⟨_ | _⟩ | _ | _ | _ | _ <;> simp [Tag.isLinC] at ht
+  · exact SemiLin.of_zero _ (h.2 rfl)
   · exact h
 
-theorem Holds.linR_of {t : Tag} {v : X → V} (ht : t.isLinR) (h : Holds R K t v) : IsLinearMap R v := by
-  rcases t with ⟨_ | _⟩ | _ | _ | _ <;> simp [Tag.isLinR] at ht
-  · exact isLinearMap_restrict (K := K) (isLinearMap_of_zero (h.2 rfl))
-  · exact isLinearMap_restrict (K := K) h
+theorem Holds.antiC_of {t : Tag} {v : X → V} (ht : t.isAntiC) (h : Holds R K t v) :
+    SemiLin (fun c : K => star c) v := by
+  rcases t with ⟨_ | _⟩ | _ | _ | _ | _ <;> simp [Tag.isAntiC] at ht
+  · exact SemiLin.of_zero _ (h.2 rfl)
+  · exact h
+
+theorem Holds.linR_of (hs : ∀ r : R, star (algebraMap R K r) = algebraMap R K r) {t : Tag} {v : X → V}
+    (ht : t.isLinR) (h : Holds R K t v) : SemiLin (fun r : R => algebraMap R K r) v := by
+  rcases t with ⟨_ | _⟩ | _ | _ | _ | _ <;> simp [Tag.isLinR] at ht
+  · exact SemiLin.of_zero _ (h.2 rfl)
+  · exact SemiLin.restrict h
+  · exact SemiLin.restrict_anti hs h
   · exact h
 
 /-! ### truth tables of the tag operations -/
 
 theorem join_linC {a b : Tag} (h : a.join b = .linC) : a.isLinC ∧ b.isLinC := by
-  rcases a with ⟨_ | _⟩ | _ | _ | _ <;> rcases b with ⟨_ | _⟩ | _ | _ | _ <;>
+  rcases a with ⟨_ | _⟩ | _ | _ | _ | _ <;> rcases b with ⟨_ | _⟩ | _ | _ | _ | _ <;>
     simp [Tag.join, Tag.isLinC] at h ⊢
 
+theorem join_antiC {a b : Tag} (h : a.join b = .antiC) : a.isAntiC ∧ b.isAntiC := by
+  rcases a with ⟨_ | _⟩ | _ | _ | _ | _ <;> rcases b with ⟨_ | _⟩ | _ | _ | _ | _ <;>
+    simp [Tag.join, Tag.isAntiC] at h ⊢
+
 theorem join_linR {a b : Tag} (h : a.join b = .linR) : a.isLinR ∧ b.isLinR := by
-  rcases a with ⟨_ | _⟩ | _ | _ | _ <;> rcases b with ⟨_ | _⟩ | _ | _ | _ <;>
+  rcases a with ⟨_ | _⟩ | _ | _ | _ | _ <;> rcases b with ⟨_ | _⟩ | _ | _ | _ | _ <;>
     simp [Tag.join, Tag.isLinR] at h ⊢
 
 theorem join_const {a b : Tag} {z : Bool} (h : a.join b = .const z) :
     ∃ za zb, a = .const za ∧ b = .const zb ∧ z = (za && zb) := by
-  rcases a with ⟨_ | _⟩ | _ | _ | _ <;> rcases b with ⟨_ | _⟩ | _ | _ | _ <;>
+  rcases a with ⟨_ | _⟩ | _ | _ | _ | _ <;> rcases b with ⟨_ | _⟩ | _ | _ | _ | _ <;>
     simp [Tag.join] at h ⊢ <;> exact h
 
 theorem joinAll_const {ts : List Tag} {z : Bool} (h : joinAll ts = .const z) :
@@ -135,6 +194,12 @@ theorem joinAll_const {ts : List Tag} {z : Bool} (h : joinAll ts = .const z) :
     · exact ⟨za, rfl, fun hzt => by subst hz; cases za <;> simp_all⟩
     · obtain ⟨z', hz', himp⟩ := ih hb u hu
       exact ⟨z', hz', fun hzt => himp (by subst hz; cases za <;> cases zb <;> simp_all)⟩
+
+theorem isLinC_isLinR {t : Tag} (h : t.isLinC) : t.isLinR := by
+  rcases t with ⟨_ | _⟩ | _ | _ | _ | _ <;> simp [Tag.isLinC, Tag.isLinR] at h ⊢
+
+theorem isAntiC_isLinR {t : Tag} (h : t.isAntiC) : t.isLinR := by
+  rcases t with ⟨_ | _⟩ | _ | _ | _ | _ <;> simp [Tag.isAntiC, Tag.isLinR] at h ⊢
 
 theorem joinAll_linC {ts : List Tag} (h : joinAll ts = .linC) : ∀ t ∈ ts, t.isLinC := by
   induction ts with
@@ -151,11 +216,28 @@ theorem joinAll_linC {ts : List Tag} (h : joinAll ts = .linC) : ∀ t ∈ ts, t.
         rw [hj] at h'
         cases z <;> simp [Tag.isLinC] at h'
         simp [himp rfl, Tag.isLinC]
+      | antiC => rw [hj] at h'; simp [Tag.isLinC] at h'
       | linR => rw [hj] at h'; simp [Tag.isLinC] at h'
       | bad => rw [hj] at h'; simp [Tag.isLinC] at h'
 
-theorem isLinC_isLinR {t : Tag} (h : t.isLinC) : t.isLinR := by
-  rcases t with ⟨_ | _⟩ | _ | _ | _ <;> simp [Tag.isLinC, Tag.isLinR] at h ⊢
+theorem joinAll_antiC {ts : List Tag} (h : joinAll ts = .antiC) : ∀ t ∈ ts, t.isAntiC := by
+  induction ts with
+  | nil => simp
+  | cons t ts ih =>
+    intro u hu
+    have h' := join_antiC (a := t) (b := joinAll ts) h
+    rcases List.mem_cons.mp hu with rfl | hu
+    · exact h'.1
+    · cases hj : joinAll ts with
+      | antiC => exact ih hj u hu
+      | const z =>
+        obtain ⟨z', rfl, himp⟩ := joinAll_const hj u hu
+        rw [hj] at h'
+        cases z <;> simp [Tag.isAntiC] at h'
+        simp [himp rfl, Tag.isAntiC]
+      | linC => rw [hj] at h'; simp [Tag.isAntiC] at h'
+      | linR => rw [hj] at h'; simp [Tag.isAntiC] at h'
+      | bad => rw [hj] at h'; simp [Tag.isAntiC] at h'
 
 theorem joinAll_linR {ts : List Tag} (h : joinAll ts = .linR) : ∀ t ∈ ts, t.isLinR := by
   induction ts with
@@ -168,6 +250,7 @@ theorem joinAll_linR {ts : List Tag} (h : joinAll ts = .linR) : ∀ t ∈ ts, t.
     · cases hj : joinAll ts with
       | linR => exact ih hj u hu
       | linC => exact isLinC_isLinR (joinAll_linC hj u hu)
+      | antiC => exact isAntiC_isLinR (joinAll_antiC hj u hu)
       | const z =>
         obtain ⟨z', rfl, himp⟩ := joinAll_const hj u hu
         rw [hj] at h'
@@ -175,48 +258,43 @@ theorem joinAll_linR {ts : List Tag} (h : joinAll ts = .linR) : ∀ t ∈ ts, t.
         simp [himp rfl, Tag.isLinR]
       | bad => rw [hj] at h'; simp [Tag.isLinR] at h'
 
-/-! ### joint linearity of a list-valued operand vector -/
+/-! ### joint semilinearity of a list-valued operand vector -/
 
-omit [Module R V] [IsScalarTower R K V] [Module R X] [IsScalarTower R K X] [Algebra R K] [CommSemiring R]
-  [Module K V] [Module K X] in
 theorem map_add_eq_ladd (l : List Nat) (f g : Nat → V) :
     l.map (fun a => f a + g a) = ladd (l.map f) (l.map g) := by
   induction l with
   | nil => rfl
   | cons a l ih => simp [ladd] at ih ⊢
 
-/-- a jointly additive and `S`-homogeneous list function composed with `S`-linear operands -/
-theorem joint_linear {S : Type} [Semiring S] [Module S V] [Module S X]
+/-- a jointly additive and `K`-homogeneous list function composed with `σ`-semilinear operands -/
+theorem SemiLin.joint {S : Type} [SMul S X] (σ : S → K)
     (f : List V → V)
     (fadd : ∀ xs ys, xs.length = ys.length → f (ladd xs ys) = f xs + f ys)
-    (fsmul : ∀ (c : S) xs, f (lsmul c xs) = c • f xs)
-    (args : List Nat) (g : X → Nat → V) (hg : ∀ a ∈ args, IsLinearMap S (fun x => g x a)) :
-    IsLinearMap S (fun x => f (args.map (g x))) := by
+    (fsmul : ∀ (c : K) xs, f (lsmul c xs) = c • f xs)
+    (args : List Nat) (g : X → Nat → V) (hg : ∀ a ∈ args, SemiLin σ (fun x => g x a)) :
+    SemiLin σ (fun x => f (args.map (g x))) := by
   constructor
   · intro x y
     have : args.map (g (x + y)) = ladd (args.map (g x)) (args.map (g y)) := by
       rw [← map_add_eq_ladd]
-      exact List.map_congr_left fun a ha => (hg a ha).map_add x y
+      exact List.map_congr_left fun a ha => (hg a ha).1 x y
+    beta_reduce
     rw [this, fadd _ _ (by simp)]
   · intro c x
-    have : args.map (g (c • x)) = lsmul c (args.map (g x)) := by
+    have : args.map (g (c • x)) = lsmul (σ c) (args.map (g x)) := by
       simp only [lsmul, List.map_map]
-      exact List.map_congr_left fun a ha => (hg a ha).map_smul c x
+      exact List.map_congr_left fun a ha => (hg a ha).2 c x
+    beta_reduce
     rw [this, fsmul]
-
-theorem lsmul_algebraMap (r : R) (xs : List V) : lsmul (algebraMap R K r) xs = lsmul r xs := by
-  simp [lsmul, algebraMap_smul]
 
 /-! ### the invariant and the step lemma -/
 
 /-- environment invariant: lengths agree and every variable satisfies what its tag claims -/
-def Inv (R K : Type) {V X : Type} [CommSemiring R] [CommSemiring K] [AddCommMonoid V] [Module R V]
-    [Module K V] [AddCommMonoid X] [Module R X] [Module K X]
+def Inv (R K : Type) {V X : Type} [CommSemiring R] [CommSemiring K] [StarRing K] [Algebra R K]
+    [AddCommMonoid V] [Module R V] [Module K V] [AddCommMonoid X] [Module R X] [Module K X]
     (tags : List Tag) (E : X → List V) : Prop :=
   (∀ x, (E x).length = tags.length) ∧ ∀ i, Holds R K (tagOf tags i) (fun x => valOf (E x) i)
 
-omit [Module R V] [IsScalarTower R K V] [Module R X] [IsScalarTower R K X] [Algebra R K] [CommSemiring R]
-  [Module K V] [Module K X] [CommSemiring K] [AddCommMonoid X] in
 theorem valOf_append (env : List V) (v : V) (i : Nat) :
     valOf (env ++ [v]) i = if i < env.length then valOf env i else if i = env.length then v else 0 := by
   unfold valOf
@@ -247,6 +325,7 @@ theorem Inv.const_params {tags : List Tag} {E : X → List V} (h : Inv R K tags 
   cases ht : tagOf tags a with
   | const z => rw [ht] at hh; exact hh.1 x
   | linC => simp [ht, Tag.isConst] at hc
+  | antiC => simp [ht, Tag.isConst] at hc
   | linR => simp [ht, Tag.isConst] at hc
   | bad => simp [ht, Tag.isConst] at hc
 
@@ -276,39 +355,43 @@ theorem Inv.zero_args {tags : List Tag} {E : X → List V} (h : Inv R K tags E) 
 theorem Holds.const_dest {z : Bool} {v : X → V} (h : Holds R K (.const z) v) :
     (∀ x, v x = v 0) ∧ (z = true → ∀ x, v x = 0) := h
 
-/-- a map `f` that is `K`-linear in its first argument, composed with operands tagged `ta`, `tb`
-    where the second one is constant -/
+/-- `f` additive and `K`-homogeneous in its first argument, second operand constant -/
+theorem SemiLin.left {S : Type} [SMul S X] {σ : S → K} {f : V → V → V}
+    (fadd : ∀ u u' d, f (u + u') d = f u d + f u' d) (fsmul : ∀ (c : K) u d, f (c • u) d = c • f u d)
+    {va vb : X → V} (ha : SemiLin σ va) (hb : ∀ x, vb x = vb 0) :
+    SemiLin σ (fun x => f (va x) (vb x)) :=
+  ⟨fun x y => by beta_reduce; rw [hb x, hb y, hb (x + y), ha.1, fadd],
+    fun c x => by beta_reduce; rw [hb x, hb (c • x), ha.2, fsmul]⟩
+
 theorem holds_left {f : V → V → V}
     (fadd : ∀ u u' d, f (u + u') d = f u d + f u' d) (fsmul : ∀ (c : K) u d, f (c • u) d = c • f u d)
     {ta : Tag} {zb : Bool} {va vb : X → V} (ha : Holds R K ta va) (hb : Holds R K (.const zb) vb) :
     Holds R K (ta.div (.const zb)) (fun x => f (va x) (vb x)) := by
   obtain ⟨hb1, -⟩ := hb.const_dest
   have f0 : ∀ d, f 0 d = 0 := fun d => by simpa using fsmul 0 0 d
-  rcases ta with za | _ | _ | _
+  rcases ta with za | _ | _ | _ | _
   · obtain ⟨ha1, ha2⟩ := ha.const_dest
     refine ⟨fun x => ?_, fun hz x => ?_⟩
     · beta_reduce; rw [ha1 x, hb1 x]
     · beta_reduce; rw [ha2 hz x, f0]
-  · exact ⟨fun x y => by rw [hb1 x, hb1 y, hb1 (x + y), ha.map_add, fadd],
-      fun c x => by rw [hb1 x, hb1 (c • x), ha.map_smul, fsmul]⟩
-  · exact ⟨fun x y => by rw [hb1 x, hb1 y, hb1 (x + y), ha.map_add, fadd],
-      fun c x => by
-        rw [hb1 x, hb1 (c • x), ha.map_smul, ← algebraMap_smul K c, fsmul, algebraMap_smul]⟩
+  · exact SemiLin.left fadd fsmul ha hb1
+  · exact SemiLin.left fadd fsmul ha hb1
+  · exact SemiLin.left fadd fsmul ha hb1
   · trivial
 
 theorem holds_div {f : V → V → V}
     (fadd : ∀ u u' d, f (u + u') d = f u d + f u' d) (fsmul : ∀ (c : K) u d, f (c • u) d = c • f u d)
     {ta tb : Tag} {va vb : X → V} (ha : Holds R K ta va) (hb : Holds R K tb vb) :
     Holds R K (ta.div tb) (fun x => f (va x) (vb x)) := by
-  rcases tb with zb | _ | _ | _
+  rcases tb with zb | _ | _ | _ | _
   · exact holds_left fadd fsmul ha hb
-  all_goals rcases ta with _ | _ | _ | _ <;> trivial
+  all_goals rcases ta with _ | _ | _ | _ | _ <;> trivial
 
 theorem bil_eq_div_or (ta tb : Tag) :
     (∃ zb, tb = .const zb ∧ (∀ za, ta ≠ .const za) ∧ ta.bil tb = ta.div tb) ∨
     (∃ za, ta = .const za ∧ (∀ zb, tb ≠ .const zb) ∧ ta.bil tb = tb.div ta) ∨
     (∃ za zb, ta = .const za ∧ tb = .const zb) ∨ ta.bil tb = .bad := by
-  rcases ta with za | _ | _ | _ <;> rcases tb with zb | _ | _ | _ <;> simp [Tag.bil, Tag.div]
+  rcases ta with za | _ | _ | _ | _ <;> rcases tb with zb | _ | _ | _ | _ <;> simp [Tag.bil, Tag.div]
 
 theorem holds_bil {f : V → V → V}
     (faddl : ∀ u u' d, f (u + u') d = f u d + f u' d) (fsmull : ∀ (c : K) u d, f (c • u) d = c • f u d)
@@ -331,19 +414,42 @@ theorem holds_bil {f : V → V → V}
       · rw [hb2 hzb x, f0r]
   · rw [h]; trivial
 
-theorem holds_re {f : V → V}
+theorem SemiLin.real {f : V → V}
+    (fadd : ∀ u u', f (u + u') = f u + f u') (fsmul : ∀ (r : R) u, f (r • u) = r • f u)
+    {va : X → V} (ha : SemiLin (fun r : R => algebraMap R K r) va) :
+    SemiLin (fun r : R => algebraMap R K r) (fun x => f (va x)) :=
+  ⟨fun x y => by beta_reduce; rw [ha.1, fadd],
+    fun r x => by beta_reduce; rw [ha.2, algebraMap_smul, fsmul, algebraMap_smul]⟩
+
+theorem holds_re (hs : ∀ r : R, star (algebraMap R K r) = algebraMap R K r) {f : V → V}
     (fadd : ∀ u u', f (u + u') = f u + f u') (fsmul : ∀ (r : R) u, f (r • u) = r • f u)
     {ta : Tag} {va : X → V} (ha : Holds R K ta va) : Holds R K ta.re (fun x => f (va x)) := by
-  rcases ta with za | _ | _ | _
+  rcases ta with za | _ | _ | _ | _
   · obtain ⟨ha1, ha2⟩ := ha.const_dest
     refine ⟨fun x => ?_, fun hz x => ?_⟩
     · beta_reduce; rw [ha1 x]
     · beta_reduce; rw [ha2 hz x]; simpa using fsmul 0 0
-  · have har : IsLinearMap R va := isLinearMap_restrict (K := K) ha
-    exact ⟨fun x y => by rw [har.map_add, fadd],
-      fun c x => by rw [har.map_smul, fsmul]⟩
-  · exact ⟨fun x y => by rw [ha.map_add, fadd],
-      fun c x => by rw [ha.map_smul, fsmul]⟩
+  · exact SemiLin.real fadd fsmul (SemiLin.restrict ha)
+  · exact SemiLin.real fadd fsmul (SemiLin.restrict_anti hs ha)
+  · exact SemiLin.real fadd fsmul ha
+  · trivial
+
+theorem SemiLin.conj {S : Type} [SMul S X] {σ : S → K} {f : V → V}
+    (fadd : ∀ u u', f (u + u') = f u + f u') (fsmul : ∀ (c : K) u, f (c • u) = star c • f u)
+    {va : X → V} (ha : SemiLin σ va) : SemiLin (fun s => star (σ s)) (fun x => f (va x)) :=
+  ⟨fun x y => by beta_reduce; rw [ha.1, fadd], fun s x => by beta_reduce; rw [ha.2, fsmul]⟩
+
+theorem holds_conj (hs : ∀ r : R, star (algebraMap R K r) = algebraMap R K r) {f : V → V}
+    (fadd : ∀ u u', f (u + u') = f u + f u') (fsmul : ∀ (c : K) u, f (c • u) = star c • f u)
+    {ta : Tag} {va : X → V} (ha : Holds R K ta va) : Holds R K ta.cj (fun x => f (va x)) := by
+  rcases ta with za | _ | _ | _ | _
+  · obtain ⟨ha1, ha2⟩ := ha.const_dest
+    refine ⟨fun x => ?_, fun hz x => ?_⟩
+    · beta_reduce; rw [ha1 x]
+    · beta_reduce; rw [ha2 hz x]; simpa using fsmul 0 0
+  · exact SemiLin.conj fadd fsmul ha
+  · exact (SemiLin.conj fadd fsmul ha).congr fun c => star_star c
+  · exact (SemiLin.conj fadd fsmul ha).congr hs
   · trivial
 
 variable {I : Interp V}
@@ -376,15 +482,19 @@ theorem step_holds (hI : I.Sound R K) {tags : List Tag} {E : X → List V} (h : 
     | bad => trivial
     | linC =>
       have hall := joinAll_linC hj
-      exact joint_linear (S := K) (I.den .linAll prim ps) (hI.lin_add prim ps) (hI.lin_smul prim ps) args
+      exact SemiLin.joint _ (I.den .linAll prim ps) (hI.lin_add prim ps) (hI.lin_smul prim ps) args
         (fun x => valOf (E x))
         (fun a ha => (h.2 a).linC_of (hall _ (List.mem_map_of_mem ha)))
+    | antiC =>
+      have hall := joinAll_antiC hj
+      exact SemiLin.joint _ (I.den .linAll prim ps) (hI.lin_add prim ps) (hI.lin_smul prim ps) args
+        (fun x => valOf (E x))
+        (fun a ha => (h.2 a).antiC_of (hall _ (List.mem_map_of_mem ha)))
     | linR =>
       have hall := joinAll_linR hj
-      exact joint_linear (S := R) (I.den .linAll prim ps) (hI.lin_add prim ps)
-        (fun r xs => by rw [← lsmul_algebraMap (K := K), hI.lin_smul, algebraMap_smul]) args
+      exact SemiLin.joint _ (I.den .linAll prim ps) (hI.lin_add prim ps) (hI.lin_smul prim ps) args
         (fun x => valOf (E x))
-        (fun a ha => (h.2 a).linR_of (hall _ (List.mem_map_of_mem ha)))
+        (fun a ha => (h.2 a).linR_of hI.star_real (hall _ (List.mem_map_of_mem ha)))
     | const z =>
       have hall := joinAll_const hj
       have hconst : ∀ a ∈ args, ∃ z, tagOf tags a = .const z := fun a ha => by
@@ -422,8 +532,16 @@ theorem step_holds (hI : I.Sound R K) {tags : List Tag} {E : X → List V} (h : 
     | _ :: _ :: _ => simp [Holds]
     | [a] =>
       simp only [List.map_cons, List.map_nil]
-      exact holds_re (f := fun u => I.den .realPart prim ps [u])
+      exact holds_re hI.star_real (f := fun u => I.den .realPart prim ps [u])
         (hI.re_add prim ps) (hI.re_smul prim ps) (h.2 a)
+  | conj =>
+    match args with
+    | [] => simp [Holds]
+    | _ :: _ :: _ => simp [Holds]
+    | [a] =>
+      simp only [List.map_cons, List.map_nil]
+      exact holds_conj hI.star_real (f := fun u => I.den .conj prim ps [u])
+        (hI.conj_add prim ps) (hI.conj_smul prim ps) (h.2 a)
   | nonlin =>
     simp only
     by_cases hc : ((args.map (tagOf tags)).all Tag.isConst) = true
@@ -456,7 +574,6 @@ theorem Inv.eqns (hI : I.Sound R K) (es : List Eqn) {tags : List Tag} {E : X →
   | nil => exact h
   | cons e es ih => exact ih (h.step hI e)
 
-omit [IsScalarTower R K V] [Algebra R K] in
 /-- initially every input leaf is the identity of that leaf: `K`-linear -/
 theorem Inv.init (n : Nat) :
     Inv R K (List.replicate n .linC) (fun x : Fin n → V => List.ofFn x) := by
@@ -477,22 +594,36 @@ theorem progTags_holds (hI : I.Sound R K) (p : Prog) :
 
 /-! ### from variables to the program's output vector -/
 
-omit [IsScalarTower R K V] [Algebra R K] [Module R V] [CommSemiring R] in
-theorem isLinearMap_pi {S : Type} [Semiring S] [Module S V] {Y : Type} [AddCommMonoid Y] [Module S Y]
-    {n : Nat} (f : Y → Fin n → V) (h : ∀ j, IsLinearMap S (fun x => f x j)) : IsLinearMap S f :=
-  ⟨fun x y => funext fun j => (h j).map_add x y, fun c x => funext fun j => (h j).map_smul c x⟩
+theorem semiLin_pi {S : Type} {Y : Type} [AddCommMonoid Y] [SMul S Y] (σ : S → K)
+    {n : Nat} (f : Y → Fin n → V) (h : ∀ j, SemiLin σ (fun x => f x j)) : SemiLin σ f :=
+  ⟨fun x y => funext fun j => (h j).1 x y, fun c x => funext fun j => (h j).2 c x⟩
 
-theorem run_linC (hI : I.Sound R K) (p : Prog) (h : check p = .linC) : IsLinearMap K (run I p) := by
+theorem run_linC' (hI : I.Sound R K) (p : Prog) (h : check p = .linC) :
+    SemiLin (fun c : K => c) (run I p) := by
   have inv := progTags_holds (R := R) (K := K) hI p
   have hall := joinAll_linC h
-  refine isLinearMap_pi (run I p) fun j => ?_
+  refine semiLin_pi _ (run I p) fun j => ?_
   exact (inv.2 (p.outs.get j)).linC_of (hall _ (List.mem_map_of_mem (List.get_mem _ _)))
 
-theorem run_linR (hI : I.Sound R K) (p : Prog) (h : check p = .linR) : IsLinearMap R (run I p) := by
+theorem run_antiC' (hI : I.Sound R K) (p : Prog) (h : check p = .antiC) :
+    SemiLin (fun c : K => star c) (run I p) := by
+  have inv := progTags_holds (R := R) (K := K) hI p
+  have hall := joinAll_antiC h
+  refine semiLin_pi _ (run I p) fun j => ?_
+  exact (inv.2 (p.outs.get j)).antiC_of (hall _ (List.mem_map_of_mem (List.get_mem _ _)))
+
+theorem run_linR' (hI : I.Sound R K) (p : Prog) (h : check p = .linR) :
+    SemiLin (fun r : R => algebraMap R K r) (run I p) := by
   have inv := progTags_holds (R := R) (K := K) hI p
   have hall := joinAll_linR h
-  refine isLinearMap_pi (run I p) fun j => ?_
-  exact (inv.2 (p.outs.get j)).linR_of (hall _ (List.mem_map_of_mem (List.get_mem _ _)))
+  refine semiLin_pi _ (run I p) fun j => ?_
+  exact (inv.2 (p.outs.get j)).linR_of hI.star_real (hall _ (List.mem_map_of_mem (List.get_mem _ _)))
+
+theorem run_linC (hI : I.Sound R K) (p : Prog) (h : check p = .linC) : IsLinearMap K (run I p) :=
+  (run_linC' hI p h).isLinearMap
+
+theorem run_linR (hI : I.Sound R K) (p : Prog) (h : check p = .linR) : IsLinearMap R (run I p) :=
+  (run_linR' hI p h).isLinearMap_real
 
 theorem run_const (hI : I.Sound R K) (p : Prog) (z : Bool) (h : check p = .const z) :
     (∀ x, run I p x = run I p 0) ∧ (z = true → ∀ x, run I p x = 0) := by
